@@ -2,6 +2,8 @@ package main
 
 import (
 	"fmt"
+	"os"
+	"path/filepath"
 	"runtime/debug"
 	"strings"
 	"time"
@@ -189,6 +191,35 @@ func scenarioC04(c *hlib.RunCtx) *hlib.Violation {
 		pool = append(pool, longCollidePool[:8+t.Draw(len(longCollidePool)-7)]...)
 		longChain = true
 		s.Probe("long-colliding-pool")
+	}
+	// One run in forty finds the week's file already there, written by an earlier
+	// process of the same program (here: by the independent encoder) with one
+	// hash chain of more records than a page could hold; the processes find the
+	// names at its far end and add one more to it.
+	if t.Bool(1, 40) {
+		wk := fmt.Sprintf("%d\n", t.Draw(7))
+		os.MkdirAll(w.local, 0777)
+		os.WriteFile(filepath.Join(w.local, "weekends"), []byte(wk), 0666)
+		bi := w.bi
+		if bi == nil {
+			bi = buildInfo
+		}
+		if base, meta, ok := learnMeta(w, bi, wk); ok {
+			chain := refformat.CollidingNames(fmt.Sprintf("q%d/", t.Draw(50)), 516+t.Draw(40))
+			earlier := w.newProc("earlier")
+			earlier.p.Exited = true // its increments are in the file; it is not there any more
+			var pairs []refformat.Pair
+			for i, n := range chain[:len(chain)-1] {
+				v := uint64(1 + i%7)
+				pairs = append(pairs, refformat.Pair{Name: n, Value: v})
+				w.begin(n, v)
+				w.begunBy[earlier.p][n] += v
+			}
+			if data, err := refformat.Encode(meta, pairs, 0); err == nil && os.WriteFile(filepath.Join(w.local, base), data, 0666) == nil {
+				pool = append(pool, chain[0], chain[len(chain)-2], chain[len(chain)-1])
+				s.Probe("chain-longer-than-a-page-of-records")
+			}
+		}
 	}
 	maxOps := 5
 	if thorough {
